@@ -460,7 +460,9 @@ def run(chk, replay=None):
 
     t_gen = time.time()
     if replay:
-        cases = parse_cases(open(replay).read(), "replay")
+        # witnesses of what the environment contract excludes stay correspondence-only when replayed
+        pre = "corpus_contract_" if os.path.basename(replay).startswith("contract_") else ""
+        cases = parse_cases(open(replay).read(), "replay", pre)
     else:
         cases = load_corpus() + scenarios()
         depth = 5 if tier == "quick" else 7
@@ -519,8 +521,8 @@ def run(chk, replay=None):
     chk.cov["traces_validated_against_impl"] = len(cases) - len(corr_bad)
     chk.cov["known_finding_cases"] = {k: len(v) for k, v in known_hits.items()}
     gen_problems = [p for p in pr["problems"] if "gen_C12" in p or "Connector_" in p]
-    chk.add_obligation("generated facts: errno table of Connector::connect, retry update expression and both constants translated "
-                       "from the current source (no FALLBACK/MISSING)", not gen_problems)
+    chk.add_obligation("generated facts: errno table of Connector::connect, retry update expression, the four guard conditions and both "
+                       "constants translated from the current source (no FALLBACK/MISSING)", not gen_problems)
     chk.add_obligation("correspondence: extracted C12_Model.step == TcpClient/Connector/TcpConnection on every case, line by line "
                        "(events, timers armed, connector state, timer queue, functor queue length, descriptor census, client, connections)",
                        not corr_bad)
